@@ -46,6 +46,49 @@ the Coq specification is evaluated on the same bytes and any disagreement is rep
 translated kmers.pyx model knows byte lists only, so the tie is not re-checked per container form (enc/rc/dec do that).
 Not driven (stated, not hidden): None as k-mer (Cython takes None for a memoryview argument and returns 0 -- not a
 k-mer, no alarm), buffers of 2^31 bytes or more (C `int` length), float / bool indices, concurrent callers.
+
+State and aliasing (statefulness audit).  Every kind above makes single calls on fresh objects, in one fixed order; the only
+exception was forms' "reused bytearray / NumPy array" (same content every time, fixed order of functions, a modified argument
+seen only through the NEXT answer).  None of the anchored code keeps state today (all C variables are locals, the error flag
+included; gambit.kmers / gambit.seq hold only the constants NUCLEOTIDES, SEQ_TYPES, DEFAULT_KMERSPEC) -- so what the kind
+`script` guards is that it stays that way.  A script is a short sequence of steps over a small pool of shared objects; every call
+step is judged by the same predicate as the single-call kinds and, in addition: (b) after EVERY call -- also between the two
+calls of a pair -- all pool objects are compared with the harness's own record of what the caller put there, (d) every call is
+made twice in a row and must answer the same, a writable result is written to by the "caller" in between (it must not be a
+window onto a pool object or onto the implementation's memory), and every bytes-like result is kept and re-read at the end.
+
+  entry point                          objects that outlive a call                          (a) reused, other args, both orders / (c) failed calls interleaved / (e) second thread
+  kmer_to_index, kmer_to_index_rc      the caller's k-mer object: bytearray, NumPy uint8    before: forms (same content, fixed order).  script codec: 2-3 objects (variants of one
+    (_cython.kmers + gambit.kmers)     (+ strided view), array('B'), memoryview of a        k-mer: other case, reverse complement, one byte invalid, other length, > 32) x 4 names,
+                                       bytearray; immutable bytes / str / Seq reusable by   random order with repetition; script put: the caller REWRITES its buffer in place
+                                       identity.  A memo / scratch / error flag would sit   (same or other length) between two calls -- an identity-keyed memo goes stale;
+                                       in module globals or thread-locals                   script fail: invalid byte / > 32 / undefined Seq / non-ASCII str / unsupported type /
+                                                                                            junk argument, then a good call through ANOTHER name on another object
+  revcomp (gambit.seq, gambit.kmers,   the caller's buffer; the result (today bytes copied  as above (codec, put, fail); results retained to the end of the script
+    _cython.kmers)                     from a fresh bytearray)
+  index_to_kmer (both names)           index / k objects (0-d NumPy arrays are mutable);    before: decforms (fresh objects; one list shared by the two names by accident).
+                                       the bytearray(k) work buffer (fresh, copied)         script dec: 1-2 k objects x 1-3 index objects in every integer form, all pairs,
+                                                                                            keyword order swapped between the two calls, out-of-range / junk calls between
+  KmerSpec, DEFAULT_KMERSPEC           frozen; one spec shared by many matches              script match: one spec against 2-3 sequences of different length and content and two
+                                                                                            specs against one sequence; fields compared after every step
+  KmerMatch.kmer(), .kmer_index()      the match (slots, NOT frozen: pos / reverse / seq    before: match (fresh match per form, kmer() then kmer_index(), once).  script match:
+                                       assignable) holding the caller's sequence object     2-3 long-lived matches, both methods in random order with repetition; pos / reverse /
+                                                                                            seq reassigned between calls (strict: the answer is for the attributes as they are
+                                                                                            now); a bytearray sequence rewritten in place (lenient: any content it had since the
+                                                                                            match pointed at it); windows with invalid bytes / undefined Seq (failing calls)
+  KmerAccumulator.add_kmer             the accumulator -- modified BY DESIGN, judged so:    before: acc (one accumulator per case).  script acc: two accumulators (same or other k
+    (SetAccumulator, ArrayAccumulator) members == indices of the valid k-mers of length k   and class) fed alternately from one pool of k-mers, invalid and wrong-length (raises)
+                                       added since the last clear(); the caller's k-mer     members between; EVERY accumulator of the pool is compared after every step
+  seq_to_bytes                         returns the caller's bytes / bytearray ITSELF        covered through the wrappers (whatever writes to its result writes to the caller)
+  module constants                     NUCLEOTIDES, SEQ_TYPES, DEFAULT_KMERSPEC             compared at the end of every script
+  threads                              calc_file_signatures reaches kmer_to_index[_rc]      about a fifth of the call steps run in one long-lived second thread (alternating with
+                                       through KmerMatch.kmer_index in pool threads         the main thread, never at the same time)
+Replays: a script carries every literal it needs.  A replay, and every attempt of the shrinker, is executed in a FRESH interpreter
+(_script_isolated), because the state the kind looks for may have been left in the campaign process by an earlier script; the first
+findings of a campaign are re-run that way at once, and a script that fails only after others is reported together with them (key
+'before', shrunk like any list).  Cost of the kind per run: coverage.script_seconds + script_generate_seconds in the evidence file.
+Not driven: two calls at the same instant; forked workers (a child has a copy of all module state; C13 drives process pools);
+command-line entry points (none observes this property).  mset steps are dropped (and counted) should KmerMatch become immutable.
 """
 import itertools
 
@@ -62,11 +105,20 @@ RULE = ('enc: byte strings -> kmer_to_index / kmer_to_index_rc (value or ValueEr
         '/ kmer_index() on a random window of a str/bytes/bytearray/Seq sequence, forward and reverse (non-trivial: '
         'k >= 2).  acc: KmerAccumulator.add_kmer over a list of k-mers, Set and Array accumulators (non-trivial: >= 2 '
         'distinct valid k-mers).  enc-long / rc-long: inputs of 41..2^17+1 bytes (rc-long beyond 4096 bytes is judged '
-        'by the property predicate alone)')
+        'by the property predicate alone).  script: 2-6 (mixed: up to ~9) steps over a pool of shared caller objects -- '
+        'k-mer buffers in every form, index / k objects, KmerSpec, long-lived KmerMatch objects, two accumulators -- every '
+        'call made twice in a row (same answer), judged by the same predicate, all pool objects compared with the '
+        'harness\'s record after every single call, writable results written to, results re-read at the end, about a '
+        'fifth of the calls in a second thread (non-trivial: some judged call uses a pool object used before)')
 TRUSTED = ['tools/pyx2v.py (Cython subset -> Gallina; C integer semantics as documented in its header)',
-           'gcc-compiled extension = semantics of kmers.pyx (the .so is exercised by the correspondence run)']
+           'gcc-compiled extension = semantics of kmers.pyx (the .so is exercised by the correspondence run)',
+           'script: the harness\'s shadow record of the pool (contents it wrote, index sets it expects) and _py_enc / _py_rc / '
+           '_digits, cross-checked against the Coq specification on every byte string and index a script asked about']
 ASSUMPTIONS = ['k-mers are passed as bytes-like objects; `int k` arguments fit a C int',
-               'CPython buffer protocol delivers the bytes unchanged to the Cython memoryview']
+               'CPython buffer protocol delivers the bytes unchanged to the Cython memoryview',
+               'script: state is looked for through caller-visible objects and answers only; a KmerMatch whose bytearray '
+               'sequence the caller rewrote in place may answer for any content since the match was pointed at it; calls of '
+               'the two threads alternate, they never overlap']
 
 NUC = b'ACGT'
 NUCS = b'ACGTacgt'
@@ -648,8 +700,695 @@ def k_long(ctx, cases):
 			ctx.violation('long', c, bad)
 
 
+# ------------------------------------------------------------------------------------------------------
+# (state audit) call sequences over a small pool of shared caller objects -- see "state and aliasing" in the docstring
+
+_ENC_APIS = ['_cython.kmers.kmer_to_index', '_cython.kmers.kmer_to_index_rc', 'gambit.kmers.kmer_to_index', 'gambit.kmers.kmer_to_index_rc']
+_RC_APIS = ['gambit.seq.revcomp', 'gambit.kmers.revcomp', '_cython.kmers.revcomp']
+_DEC_APIS = ['gambit.kmers.index_to_kmer', '_cython.kmers.index_to_kmer']
+_F_BUFFER = ('bytes', 'bytearray', 'numpy', 'numpy-strided', 'array-B', 'memoryview-bytearray')   # unsigned-char buffers
+_F_DNASEQ = ('bytes', 'bytearray', 'str', 'Seq-str', 'Seq-bytes', 'Seq-undefined')                # gambit.seq.DNASeq
+_F_WRITABLE = ('bytearray', 'numpy', 'numpy-strided', 'array-B', 'memoryview-bytearray')
+_F_RESIZABLE = ('bytearray',)
+_INT_FORMS = ('int', 'uint8', 'int32', 'uint64', 'int64', '0d-uint64', '0d-int64')
+_UNDEF = 'undefined'
+_POOL = None
+
+
+def _worker():
+	"""the second thread of the script kind (one long-lived worker: thread-local state filled by one case is still
+	there in the next)"""
+	global _POOL
+	if _POOL is None:
+		from concurrent.futures import ThreadPoolExecutor
+		_POOL = ThreadPoolExecutor(max_workers=1, thread_name_prefix='c07-script')
+	return _POOL
+
+
+def teardown(ctx):
+	global _POOL
+	if _POOL is not None:
+		_POOL.shutdown(wait=False)
+		_POOL = None
+
+
+def _mk_buf(form, b):
+	"""the caller's object of the given form holding the bytes b"""
+	import array
+	import numpy as np
+	from Bio.Seq import Seq
+	if form == 'bytes':
+		return bytes(b)
+	if form == 'bytearray':
+		return bytearray(b)
+	if form == 'numpy':
+		return np.array(list(b), dtype=np.uint8)
+	if form == 'numpy-strided':
+		big = np.frombuffer(bytearray(_filler(b, j) for j in range(2 * len(b) + 3)), dtype=np.uint8)
+		v = big[1:1 + 2 * len(b):2]
+		v[:] = np.frombuffer(bytes(b), dtype=np.uint8)
+		return v
+	if form == 'array-B':
+		return array.array('B', b)
+	if form == 'memoryview-bytearray':
+		return memoryview(bytearray(b))
+	if form == 'str':
+		return b.decode('latin-1')
+	if form == 'Seq-str':
+		return Seq(b.decode('ascii')) if all(x < 128 for x in b) else Seq(bytes(b))
+	if form == 'Seq-bytes':
+		return Seq(bytes(b))
+	if form == 'Seq-undefined':
+		return Seq(None, len(b))
+	raise KeyError(form)
+
+
+def _read_buf(form, obj):
+	"""what the caller sees in its object now"""
+	if form in ('numpy', 'numpy-strided', 'array-B'):
+		return obj.tobytes()
+	if form == 'str':
+		return obj.encode('latin-1')
+	if form == 'Seq-undefined':
+		try:
+			return bytes(obj)
+		except Exception:  # noqa -- still undefined
+			return (_UNDEF, len(obj))
+	return bytes(obj)
+
+
+def _write_buf(form, obj, new):
+	"""the caller rewrites its own object in place"""
+	import numpy as np
+	if form in ('numpy', 'numpy-strided'):
+		obj[:] = np.frombuffer(bytes(new), dtype=np.uint8)
+	elif form == 'array-B':
+		obj[:] = __import__('array').array('B', new)
+	else:
+		obj[:] = new
+
+
+def _opaque(form, b):
+	"""no byte string of nucleotide letters to speak about: undefined Seq, or text with a code point >= 128"""
+	return form == 'Seq-undefined' or (form == 'str' and any(x >= 128 for x in b))
+
+
+def _mk_int(form, v):
+	import numpy as np
+	if form == 'int':
+		return v
+	if form.startswith('0d-'):
+		return np.array(v, dtype=form[3:])
+	return getattr(np, form)(v)
+
+
+def _int_fits(form, v):
+	import numpy as np
+	if form == 'int':
+		return True
+	info = np.iinfo(form[3:] if form.startswith('0d-') else form)
+	return info.min <= v <= info.max
+
+
+def _digits(idx, k):
+	return bytes(NUC[(idx >> (2 * (k - 1 - j))) & 3] for j in range(k))
+
+
+def _run_script(c, env, oracle_log):
+	"""Execute one script.  Returns (first finding or None, number of judged calls on an object already used before).
+	Every call step runs twice; every step is followed by the comparison of ALL pool objects with the harness's own
+	record of what the caller put there."""
+	import operator
+	bufs = []      # [form, object, content]
+	for form, h in c['bufs']:
+		b = bytes.fromhex(h)
+		bufs.append([form, _mk_buf(form, b), b])
+	ints = [(form, _mk_int(form, v), v) for form, v in c.get('ints', [])]
+	specs = [(env['gk'].KmerSpec(k, 'ACGT'[:pl] if pl <= 4 else 'A' * pl), k, pl) for k, pl in c.get('specs', [])]
+	spec_snap = [(s.k, s.prefix, s.prefix_str, s.prefix_len, s.total_len, s.nkmers, s.index_dtype) for s, _, _ in specs]
+	accs = []      # [class name, k, object, shadow set]
+	for cls, k in c.get('accs', []):
+		accs.append([cls, k, (env['SetAccumulator'] if cls == 'set' else env['ArrayAccumulator'])(k), set()])
+	matches = []   # [object, spec index, buffer index, pos, reverse, contents the buffer had since the match points at it]
+	retained = []  # (raw result, canonical value when it was returned, where)
+	used = set()
+	reuse = 0
+	frozen_match = False
+
+	def run(t, fn, *a, **kw):
+		if t:
+			return _worker().submit(_call, fn, *a, **kw).result()
+		return _call(fn, *a, **kw)
+
+	def same_seq(x, bi, hist):
+		"""the match still points at the caller's sequence (or, should matches ever keep a private copy, at a copy of
+		something the caller's object held since then)"""
+		form, obj, b = bufs[bi]
+		if x is obj:
+			return True
+		try:
+			now = _read_buf('str' if isinstance(x, str) else form if form.startswith('Seq') else 'bytes', x)
+		except Exception:  # noqa
+			return False
+		return now in hist or now == (_UNDEF, len(b))
+
+	def pool_diff():
+		for i, (form, obj, b) in enumerate(bufs):
+			now = _read_buf(form, obj)
+			if now != ((_UNDEF, len(b)) if form == 'Seq-undefined' else b):
+				return f'the caller\'s {form} #{i} held {b!r} and now holds {now!r}'
+		for i, (form, obj, v) in enumerate(ints):
+			try:
+				now = operator.index(obj)
+			except Exception as e:  # noqa
+				now = type(e).__name__
+			if now != v or (form != 'int' and str(obj.dtype) != (form[3:] if form.startswith('0d-') else form)):
+				return f'the caller\'s integer #{i} ({form}) was {v} and is now {obj!r}'
+		for i, (s, _, _) in enumerate(specs):
+			if (s.k, s.prefix, s.prefix_str, s.prefix_len, s.total_len, s.nkmers, s.index_dtype) != spec_snap[i]:
+				return f'KmerSpec #{i} changed: {spec_snap[i]!r} -> {s!r}'
+		for i, (m, si, bi, pos, rev, hist) in enumerate(matches):
+			if m.kmerspec != specs[si][0] or m.pos != pos or m.reverse != rev or not same_seq(m.seq, bi, hist):
+				return (f'KmerMatch #{i} was built with (spec #{si} {specs[si][0]!r}, sequence #{bi}, pos={pos}, reverse={rev}) and now has '
+				        f'(kmerspec={m.kmerspec!r}, seq is the same object: {m.seq is bufs[bi][1]}, pos={m.pos!r}, reverse={m.reverse!r})')
+		for i, (cls, k, a, shadow) in enumerate(accs):
+			got = _call(lambda: [int(x) for x in a.signature()])
+			if got != sorted(shadow) or a.k != k:
+				return f'{cls} accumulator #{i} (k={k}) should hold {sorted(shadow)!r}, signature() = {got!r}, k = {a.k!r}'
+		return None
+
+	def touch(*keys):
+		nonlocal reuse
+		if any(k in used for k in keys):
+			reuse += 1
+		used.update(keys)
+
+	def scribble(r):
+		"""a result the caller may write to: write to it -- it must not be a window onto a pool object"""
+		if isinstance(r, bytearray) or (isinstance(r, memoryview) and not r.readonly):
+			for j in range(len(r)):
+				r[j] ^= 0xFF
+			return True
+		return False
+
+	def twice(canon, t, fn, *a, kw2=None, **kw):
+		"""the same call two times in a row.  The pool is compared after the FIRST call as well (a call that swaps
+		something and a second one that swaps it back would otherwise go unseen), and a writable result of the first
+		call is written to before the second call.  -> canonical results, what to retain, finding"""
+		r1 = run(t, fn, *a, **kw)
+		g1 = canon(r1)
+		d = pool_diff()
+		if d:
+			return g1, g1, [], 'after the first of two identical calls ' + d
+		keep = []
+		if scribble(r1):
+			d = pool_diff()
+			if d:
+				return g1, g1, [], f'the caller wrote to the {type(r1).__name__} the call returned, and {d}'
+		else:
+			keep.append((r1, g1))
+		r2 = run(t, fn, *a, **(kw if kw2 is None else kw2))
+		g2 = canon(r2)
+		keep.append((r2, g2))
+		return g1, g2, [(r, g, where) for r, g in keep if isinstance(g, bytes)], None
+
+	def window(mrec, content):
+		_, si, bi, pos, rev, _ = mrec
+		_, k, pl = specs[si]
+		lo = pos - (k + pl) + 1 if rev else pos + pl
+		if lo < 0 or lo + k > len(content):
+			return None
+		return content[lo:lo + k]
+
+	for n, st in enumerate(c['steps']):
+		op, t = st['op'], st.get('t', 0)
+		where = f'step {n + 1} of {len(c["steps"])} ({_json_short(st)})'
+		bad = None
+		if op in ('enc', 'rc'):
+			form, obj, b = bufs[st['b']]
+			if op == 'enc':
+				api, fn, canon = _ENC_APIS[st['api']], env['enc'][st['api']], _canon_int
+				rcflag = st['api'] % 2 == 1
+				strict = form in (_F_DNASEQ if st['api'] >= 2 else _F_BUFFER)
+				want = REJ if _opaque(form, b) else _py_enc(_py_rc(b) if rcflag else b)
+			else:
+				api, fn, canon = _RC_APIS[st['api']], env['rc'][st['api']], _canon_bytes
+				strict = form in _F_BUFFER
+				want = REJ if _opaque(form, b) else _py_rc(b)
+			if not _opaque(form, b):
+				oracle_log['bytes'].add(b)
+			g1, g2, keep, bad = twice(canon, t, fn, obj)
+			if g1 != want and (strict or g1 != REJ):
+				bad = f'{api}({form} #{st["b"]} holding {b!r}) = {g1!r}, the property says {want!r}'
+			elif g1 != g2:
+				bad = f'{api}({form} #{st["b"]} holding {b!r}) called twice in a row gave {g1!r} and then {g2!r}'
+			retained += keep
+			touch(('b', st['b']))
+		elif op == 'put':
+			form, obj, _ = bufs[st['b']]
+			new = bytes.fromhex(st['hex'])
+			_write_buf(form, obj, new)
+			bufs[st['b']][2] = new
+			for mrec in matches:
+				if mrec[2] == st['b']:
+					mrec[5].append(new)
+		elif op == 'dec':
+			(iform, iobj, iv), (kform, kobj, kv) = ints[st['i']], ints[st['k']]
+			api, fn = _DEC_APIS[st['api']], env['dec'][st['api']]
+			if not -2 <= kv <= 64:
+				raise ValueError('malformed script: k out of the range a script may use')
+			if st.get('kw'):
+				g1, g2, keep, bad = twice(_canon_bytes, t, fn, kw2=dict(k=kobj, index=iobj), index=iobj, k=kobj)
+			else:
+				g1, g2, keep, bad = twice(_canon_bytes, t, fn, iobj, kobj)
+			inrange = 0 <= kv <= 32 and 0 <= iv < 4 ** kv
+			if inrange:
+				oracle_log['dec'].add((iv, kv))
+			if inrange and g1 != _digits(iv, kv):
+				bad = f'{api}({iv} as {iform} #{st["i"]}, {kv} as {kform} #{st["k"]}) = {g1!r}, base-4 digits say {_digits(iv, kv)!r}'
+			elif g1 != g2:
+				bad = f'{api}({iv} as {iform} #{st["i"]}, {kv} as {kform} #{st["k"]}) called twice in a row gave {g1!r} and then {g2!r}'
+			elif inrange:
+				retained += keep
+				touch(('i', st['i']), ('i', st['k']))
+		elif op == 'junk':
+			# a call that cannot succeed (not a k-mer / not an index at all): nothing to judge but what it leaves behind
+			arg = {'int': 5, 'float': 2.5, 'list': [65, 67, 71], 'object': object(), 'tuple': (b'A', b'C')}[st['arg']]
+			fam, a = st['api']
+			if fam == 'dec':
+				bad_args = {'int': (-1, 3), 'float': (2 ** 64, 3), 'list': (5, -1), 'object': ('A', 2), 'tuple': (3, 'x')}[st['arg']]
+				run(t, env['dec'][a], *bad_args)
+			else:
+				run(t, env[fam][a], arg)
+		elif op == 'match':
+			si, bi = st['s'], st['b']
+			m = run(t, env['gk'].KmerMatch, specs[si][0], bufs[bi][1], st['pos'], bool(st['rev']))
+			if _is_err(m):
+				bad = f'KmerMatch(spec #{si}, sequence #{bi}, {st["pos"]}, {bool(st["rev"])}) raised {m[1]}'
+			else:
+				matches.append([m, si, bi, st['pos'], bool(st['rev']), [bufs[bi][2]]])
+		elif op == 'mset':
+			mrec = matches[st['m']]
+			attr, val = st['attr'], st['value']
+			try:
+				if attr == 'seq':
+					setattr(mrec[0], 'seq', bufs[val][1])
+					mrec[2], mrec[5] = val, [bufs[val][2]]
+				elif attr == 'pos':
+					setattr(mrec[0], 'pos', val)
+					mrec[3] = val
+				else:
+					setattr(mrec[0], 'reverse', bool(val))
+					mrec[4] = bool(val)
+			except AttributeError:
+				frozen_match = True  # an immutable KmerMatch is not this property's business: the step is dropped
+		elif op in ('kmer', 'kidx'):
+			mrec = matches[st['m']]
+			m, si, bi, pos, rev, hist = mrec
+			form = bufs[bi][0]
+			fn, canon = (m.kmer, _canon_bytes) if op == 'kmer' else (m.kmer_index, _canon_int)
+			wants = []
+			for content in hist[-1:] + hist[:-1]:
+				w = window(mrec, content)
+				if w is None:
+					continue
+				if _opaque(form, w):
+					wants.append(REJ)
+				else:
+					oracle_log['bytes'].add(w)
+					wants.append((_py_rc(w) if rev else w) if op == 'kmer' else _py_enc(_py_rc(w) if rev else w))
+			g1, g2, keep, bad = twice(canon, t, fn)
+			desc = (f'KmerMatch #{st["m"]} (k={specs[si][1]}, prefix length {specs[si][2]}, {form} sequence #{bi} holding {bufs[bi][2]!r}, '
+			        f'pos={pos}, reverse={rev}).{"kmer" if op == "kmer" else "kmer_index"}()')
+			if bad:
+				bad = f'{desc}: {bad}'
+			elif window(mrec, hist[-1]) is not None and wants and g1 not in wants and (form in _F_DNASEQ or g1 != REJ):
+				bad = f'{desc} = {g1!r}, the property says {wants[0]!r}' + (f' (or, for the content the sequence had earlier, one of {wants[1:]!r})' if len(wants) > 1 else '')
+			elif g1 != g2:
+				bad = f'{desc} called twice in a row gave {g1!r} and then {g2!r}'
+			elif wants:
+				retained += keep
+				touch(('m', st['m']), ('b', bi), ('s', si))
+		elif op == 'add':
+			arec = accs[st['a']]
+			form, obj, b = bufs[st['b']]
+			adds = len(b) == arec[1] and not _opaque(form, b) and _py_enc(b) != REJ
+			# strict for the DNASeq forms; any other form may be refused, but then both times
+			r1 = run(t, arec[2].add_kmer, obj)
+			if adds and not _is_err(r1):
+				oracle_log['bytes'].add(b)
+				arec[3].add(_py_enc(b))
+			bad = pool_diff()
+			if bad:
+				bad = 'after the first of two identical calls ' + bad
+			r2 = run(t, arec[2].add_kmer, obj)
+			if adds and not bad and (_is_err(r1) or _is_err(r2)) and (form in _F_DNASEQ or _is_err(r1) != _is_err(r2)):
+				bad = (f'{arec[0]} accumulator #{st["a"]} (k={arec[1]}).add_kmer({form} #{st["b"]} holding {b!r}) called twice in a row: '
+				       f'{r1[1] if _is_err(r1) else "ok"}, {r2[1] if _is_err(r2) else "ok"}')
+			touch(('a', st['a']), ('b', st['b']))
+		elif op == 'clear':
+			arec = accs[st['a']]
+			run(t, arec[2].clear)
+			arec[3].clear()
+		elif op == 'members':
+			arec = accs[st['a']]
+			got = run(t, lambda: sorted(int(x) for x in arec[2]))
+			ln = run(t, lambda: int(len(arec[2])))
+			if got != sorted(arec[3]) or ln != len(arec[3]):
+				bad = f'{arec[0]} accumulator #{st["a"]} (k={arec[1]}): members {got!r}, len {ln!r}; the valid k-mers added have indices {sorted(arec[3])!r}'
+			touch(('a', st['a']))
+		else:
+			raise KeyError(op)
+		bad = bad or pool_diff()
+		if bad:
+			return f'{where}: {bad}', reuse, frozen_match
+	for r, g, where in retained:
+		now = _canon_bytes(r)
+		if now != g:
+			return f'the result returned at {where} was {g!r} and reads {now!r} at the end of the script', reuse, frozen_match
+	d, s = env['gk'].DEFAULT_KMERSPEC, env['gs']
+	if (d.k, d.prefix, d.prefix_len, d.total_len, d.nkmers, str(d.index_dtype)) != (11, b'ATGAC', 5, 16, 4 ** 11, 'uint32') \
+			or s.NUCLEOTIDES != b'ACGT' or len(s.SEQ_TYPES) != 4:
+		return f'module constants changed: DEFAULT_KMERSPEC = {d!r}, NUCLEOTIDES = {s.NUCLEOTIDES!r}, SEQ_TYPES = {s.SEQ_TYPES!r}', reuse, frozen_match
+	return None, reuse, frozen_match
+
+
+def _json_short(st):
+	import json
+	return json.dumps(st, sort_keys=True, separators=(',', ':'))
+
+
+def _script_env():
+	import gambit.kmers as gk
+	import gambit.seq as gs
+	from gambit._cython import kmers as ck
+	from gambit.sigs.calc import SetAccumulator, ArrayAccumulator
+	return dict(gk=gk, gs=gs, ck=ck, SetAccumulator=SetAccumulator, ArrayAccumulator=ArrayAccumulator,
+	            enc=[ck.kmer_to_index, ck.kmer_to_index_rc, gk.kmer_to_index, gk.kmer_to_index_rc],
+	            rc=[gs.revcomp, gk.revcomp, ck.revcomp], dec=[gk.index_to_kmer, ck.index_to_kmer])
+
+
+def _script_with_history(c, env, log):
+	"""a case may carry, under 'before', the scripts that ran before it in the process where it failed (state that
+	leaks from one script into the next); they are run first, their own findings do not count here"""
+	for b in c.get('before', []):
+		try:
+			_run_script(b, env, log)
+		except Exception:  # noqa -- shrinking may leave a malformed one behind
+			pass
+	return _run_script(c, env, log)
+
+
+def _script_child(c):
+	"""entry point of the fresh interpreter started by _script_isolated"""
+	return list(_script_with_history(c, _script_env(), dict(bytes=set(), dec=set())))
+
+
+def _script_isolated(c):
+	"""Run one script in a FRESH interpreter (same implementation, same harness file): whatever earlier cases left
+	behind in this process -- the very thing the kind looks for -- cannot take part, so a replay file that fails
+	there fails on its own.  -> (finding or None, reuse, frozen); raises if the child cannot run the case."""
+	import json
+	import os
+	import subprocess
+	import sys
+	code = 'import sys, json\nimport harness.c07 as h\nprint("\\n@@" + json.dumps(h._script_child(json.load(sys.stdin))))\n'
+	env = dict(os.environ, PYTHONPATH=os.pathsep.join(x for x in sys.path if x))
+	p = subprocess.run([sys.executable, '-c', code], input=json.dumps(c), capture_output=True, text=True, timeout=600, env=env)
+	lines = [ln for ln in p.stdout.splitlines() if ln.startswith('@@')]
+	if p.returncode != 0 or not lines:
+		raise RuntimeError('script child failed: ' + p.stderr[-600:])
+	return tuple(json.loads(lines[-1][2:]))
+
+
+_SCRIPT_VERIFIED = [0]
+
+
+def k_script(ctx, cases):
+	"""call sequences over shared caller objects (see "state and aliasing" in the module docstring).  A replay (and
+	every attempt of the shrinker) runs in a fresh interpreter; in a campaign the first findings are re-run there and,
+	if a script does not fail on its own, it is reported together with the scripts that ran before it."""
+	env = _script_env()
+	log = dict(bytes=set(), dec=set())
+	t0 = __import__('time').time()
+	for n, c in enumerate(cases):
+		if ctx.replaying:
+			bad, reuse, frozen = _script_isolated(c)
+		else:
+			bad, reuse, frozen = _script_with_history(c, env, log)
+		ctx.case(c, nontrivial=reuse >= 1)
+		ctx.count('stream:script:' + c.get('theme', 'corpus'))
+		for st in c['steps']:
+			if st.get('t'):
+				ctx.count('stream:script:steps-in-second-thread')
+				break
+		if frozen:
+			ctx.count('script:mset-steps-dropped(KmerMatch immutable)')
+		if bad and not ctx.replaying and _SCRIPT_VERIFIED[0] < 3:
+			_SCRIPT_VERIFIED[0] += 1
+			try:
+				alone = _script_isolated(c)[0]
+				if alone:
+					bad = alone
+				else:
+					c2 = dict(c, before=[x for x in cases[max(0, n - 400):n] if 'before' not in x])
+					again = _script_isolated(c2)[0]
+					if again:
+						c, bad = c2, again + f' [only after the {len(c2["before"])} scripts under "before": state left behind by an earlier script]'
+					else:
+						bad += ' [seen in the campaign process only: neither the script alone nor with the scripts of its batch fails in a fresh interpreter]'
+			except Exception as e:  # noqa
+				bad += f' [not re-run in a fresh interpreter: {e}]'
+		if bad:
+			ctx.violation('script', c, bad)
+	# the Python rendering of the predicate against the Coq specification, on every byte string / index the oracle was asked about
+	if ctx.model_ok and not ctx.replaying:
+		bs = sorted(b for b in log['bytes'] if len(b) <= 4096)
+		ds = sorted(log['dec'])
+		a = ctx.model([x for b in bs for x in ((711, b), (713, b))] + [(712, [i, k]) for i, k in ds])
+		for j, b in enumerate(bs):
+			coq = (a[2 * j][0] if a[2 * j] else REJ, bytes(a[2 * j + 1]))
+			if coq != (_py_enc(b), _py_rc(b)):
+				ctx.broke('harness predicate vs Coq specification (script)', f'input {b!r}: python={(_py_enc(b), _py_rc(b))!r} coq={coq!r}')
+				break
+		for j, (i, k) in enumerate(ds):
+			if bytes(a[2 * len(bs) + j]) != _digits(i, k):
+				ctx.broke('harness predicate vs Coq specification (script, decode)', f'input {(i, k)}: python={_digits(i, k)!r} coq={bytes(a[2 * len(bs) + j])!r}')
+				break
+	# what the kind costs, measured (the quick tier has a budget)
+	ctx.extra['script_seconds'] = round(ctx.extra.get('script_seconds', 0) + __import__('time').time() - t0, 2)
+
+
+_SCRIPT_THEMES = ('codec', 'put', 'fail', 'match', 'acc', 'dec', 'mixed')
+_BAD_BYTES = [ord('N'), ord('n'), 0xC1, 0xE1, 0xD4, 0x00, 0x21, 0x55, 0x75, 0x80]
+
+
+def _gen_script(rng, theme):
+	"""one random script (a JSON-serialisable case carrying every literal it needs)"""
+	bufs, ints, specs, accs, steps = [], [], [], [], []
+
+	def kmer(k=None, p_bad=0.0, alpha=None):
+		k = rng.choice([1, 2, 3, 4, 5, 6, 8, 11, 12, 16, 17, 31, 32]) if k is None else k
+		alpha = alpha or rng.choice([NUCS, NUC])
+		b = bytearray(rng.choice(alpha) for _ in range(k))
+		if k and rng.random() < p_bad:
+			b[rng.randrange(k)] = rng.choice(_BAD_BYTES + [rng.randrange(256)])
+		return bytes(b)
+
+	def T():
+		return 1 if rng.random() < 0.2 else 0
+
+	def buf(form, b):
+		bufs.append([form, bytes(b).hex()])
+		return len(bufs) - 1
+
+	def call(bi, same_api=None):
+		"""a codec call on buffer bi through an entry point that documents its form"""
+		form = bufs[bi][0]
+		apis = [('enc', a) for a in range(4) if form in (_F_DNASEQ if a >= 2 else _F_BUFFER)] + \
+		       [('rc', a) for a in range(3) if form in _F_BUFFER]
+		if rng.random() < 0.08:
+			apis = [('enc', a) for a in range(4)] + [('rc', a) for a in range(3)]   # also outside the documented forms
+		op, a = same_api if same_api in apis and rng.random() < 0.5 else rng.choice(apis)
+		steps.append(dict(op=op, api=a, b=bi, t=T()))
+		return op, a
+
+	def variant(b):
+		r = rng.random()
+		if r < 0.2:
+			return _py_rc(b)
+		if r < 0.4:
+			return b.swapcase()
+		if r < 0.5 and b:
+			x = bytearray(b)
+			x[rng.randrange(len(b))] = rng.choice(_BAD_BYTES)
+			return bytes(x)
+		return kmer(len(b))
+
+	def codec(nsteps):
+		n0 = len(bufs)
+		first = kmer(p_bad=0.1)
+		buf(rng.choice(_F_BUFFER + _F_DNASEQ[2:5]), first)
+		for _ in range(rng.randint(1, 2)):
+			b = rng.choice([variant(first), kmer(p_bad=0.1), kmer(rng.randint(33, 40)), first])
+			buf(rng.choice(_F_BUFFER + _F_DNASEQ[2:5]), b)
+		last = None
+		for _ in range(nsteps):
+			last = call(rng.randrange(n0, len(bufs)), last)
+
+	def put(nsteps):
+		form = rng.choice(_F_WRITABLE)
+		b = kmer(p_bad=0.05)
+		bi = buf(form, b)
+		other = buf(rng.choice(_F_BUFFER), variant(b)) if rng.random() < 0.5 else bi
+		last = call(bi)
+		for _ in range(max(1, nsteps // 2)):
+			new = variant(b)
+			if form in _F_RESIZABLE and rng.random() < 0.4:
+				new = kmer(p_bad=0.05)
+			steps.append(dict(op='put', b=bi, hex=new.hex()))
+			b = new
+			last = call(rng.choice([bi, bi, other]), last)
+
+	def fail(nsteps):
+		r = rng.random()
+		good = kmer()
+		if r < 0.35:
+			x = bytearray(kmer(rng.choice([2, 3, 5, 11, 17, 32])))
+			x[rng.randrange(len(x))] = rng.choice(_BAD_BYTES)
+			bad = buf(rng.choice(_F_BUFFER + _F_DNASEQ[2:5]), x)
+		elif r < 0.55:
+			bad = buf(rng.choice(_F_BUFFER + _F_DNASEQ[2:5]), kmer(rng.randint(33, 45)))
+		elif r < 0.7:
+			bad = buf('Seq-undefined', kmer(len(good)))
+		elif r < 0.85:
+			x = bytearray(kmer(rng.choice([2, 3, 5, 11])))
+			x[rng.randrange(len(x))] = rng.choice([0xC1, 0xE1, 0xD4, 0xFF, 0x80])
+			bad = buf('str', x)
+		else:
+			bad = buf(rng.choice(['numpy', 'array-B', 'memoryview-bytearray', 'str']), kmer())   # a form some entry points refuse
+		gi = buf(rng.choice(_F_BUFFER + _F_DNASEQ[2:5]), good)
+		for j in range(nsteps):
+			if j % 2 == 0:
+				if rng.random() < 0.25:
+					fam = rng.choice(['enc', 'rc', 'dec'])
+					steps.append(dict(op='junk', api=[fam, rng.randrange(dict(enc=4, rc=3, dec=2)[fam])], arg=rng.choice(['int', 'float', 'list', 'object', 'tuple']), t=T()))
+				else:
+					form = bufs[bad][0]
+					steps.append(dict(op=rng.choice(['enc', 'enc', 'rc']), api=0, b=bad, t=T()))
+					steps[-1]['api'] = rng.randrange(4 if steps[-1]['op'] == 'enc' else 3)
+			else:
+				call(gi)
+
+	def match(nsteps):
+		s0 = len(specs)
+		for _ in range(rng.randint(1, 2)):
+			specs.append([rng.choice([1, 2, 3, 4, 5, 7, 8, 11, 12, 16, 17, 31, 32, 33]) if rng.random() < 0.8 else rng.randint(1, 33), rng.randint(0, 3)])
+		need = max(k + pl for k, pl in specs[s0:])
+		b0 = len(bufs)
+		alpha = rng.choice([NUCS, NUCS, NUC, NUCS * 3 + b'Nn', NUCS * 4 + b'N-\x00\xff\xc1'])
+		for _ in range(rng.randint(2, 3)):
+			form = rng.choice(_F_DNASEQ[:5] + ('bytearray',) + (('Seq-undefined',) if rng.random() < 0.1 else ()))
+			buf(form, kmer(need + rng.choice([0, 1, rng.randint(0, 30), need]), alpha=alpha))
+		m0 = sum(1 for st in steps if st['op'] == 'match')
+
+		def positions(si, bi, rev):
+			k, pl = specs[si]
+			ln = len(bufs[bi][1]) // 2
+			lo = rng.choice([0, ln - k - pl, rng.randint(0, ln - k - pl)])
+			return lo + k + pl - 1 if rev else lo
+
+		ms = []
+		for _ in range(rng.randint(2, 3)):
+			si, bi, rev = rng.randrange(s0, len(specs)), rng.randrange(b0, len(bufs)), rng.random() < 0.5
+			steps.append(dict(op='match', s=si, b=bi, pos=positions(si, bi, rev), rev=int(rev), t=T()))
+			ms.append([m0 + len(ms), si, bi, rev])
+		for _ in range(nsteps):
+			mrec = rng.choice(ms)
+			r = rng.random()
+			if r < 0.12:
+				mrec[3] = rng.random() < 0.5
+				steps.append(dict(op='mset', m=mrec[0], attr='reverse', value=int(mrec[3])))
+				steps.append(dict(op='mset', m=mrec[0], attr='pos', value=positions(mrec[1], mrec[2], mrec[3])))
+			elif r < 0.2:
+				steps.append(dict(op='mset', m=mrec[0], attr='pos', value=positions(mrec[1], mrec[2], mrec[3])))
+			elif r < 0.28:
+				mrec[2] = rng.randrange(b0, len(bufs))
+				steps.append(dict(op='mset', m=mrec[0], attr='seq', value=mrec[2]))
+				steps.append(dict(op='mset', m=mrec[0], attr='pos', value=positions(mrec[1], mrec[2], mrec[3])))
+			elif r < 0.36 and bufs[mrec[2]][0] == 'bytearray':
+				old = bytes.fromhex(bufs[mrec[2]][1])
+				steps.append(dict(op='put', b=mrec[2], hex=kmer(len(old), alpha=alpha).hex()))
+			steps.append(dict(op=rng.choice(['kmer', 'kidx']), m=mrec[0], t=T()))
+
+	def acc(nsteps):
+		a0 = len(accs)
+		k1 = rng.choice([1, 2, 3, 4, 5, 6])
+		k2 = k1 if rng.random() < 0.5 else rng.choice([1, 2, 3, 4, 5, 6, 11, 16, 17, 32])
+		accs.append([rng.choice(['set', 'array']), k1])
+		accs.append(['set' if k2 > 6 else rng.choice(['set', 'array']), k2])
+		b0 = len(bufs)
+		for _ in range(rng.randint(2, 4)):
+			k = rng.choice([k1, k2, k1, k2, rng.choice([k1, k2]) + 1])
+			form = 'Seq-undefined' if rng.random() < 0.05 else rng.choice(_F_DNASEQ[:5])
+			buf(form, kmer(k, p_bad=0.2))
+		for _ in range(nsteps):
+			r = rng.random()
+			a = rng.randrange(a0, len(accs))
+			if r < 0.7:
+				steps.append(dict(op='add', a=a, b=rng.randrange(b0, len(bufs)), t=T()))
+			elif r < 0.92:
+				steps.append(dict(op='members', a=a, t=T()))
+			else:
+				steps.append(dict(op='clear', a=a))
+		steps.append(dict(op='members', a=rng.randrange(a0, len(accs)), t=T()))
+
+	def dec(nsteps):
+		i0 = len(ints)
+		ks = []
+		for _ in range(rng.randint(1, 2)):
+			k = rng.choice([0, 1, 2, 3, 4, 8, 11, 16, 17, 27, 31, 32]) if rng.random() < 0.7 else rng.randint(0, 32)
+			form = rng.choice([f for f in _INT_FORMS if _int_fits(f, k)])
+			ints.append([form, k])
+			ks.append(len(ints) - 1)
+		ix = []
+		for _ in range(rng.randint(1, 3)):
+			k = ints[rng.choice(ks)][1]
+			v = rng.choice([0, 4 ** k - 1, rng.randrange(4 ** k), rng.randrange(4 ** k), 4 ** k // 3])
+			if rng.random() < 0.1:
+				v = rng.choice([2 ** 64 - 1, 4 ** k, rng.randrange(2 ** 64)])
+			form = rng.choice([f for f in _INT_FORMS if _int_fits(f, v)])
+			if rng.random() < 0.4 and _int_fits('0d-uint64', v):
+				form = rng.choice(['0d-uint64', 'uint64'])
+			ints.append([form, v])
+			ix.append(len(ints) - 1)
+		for _ in range(nsteps):
+			if rng.random() < 0.1:
+				steps.append(dict(op='junk', api=['dec', rng.randrange(2)], arg=rng.choice(['int', 'float', 'list', 'object', 'tuple']), t=T()))
+			steps.append(dict(op='dec', api=rng.randrange(2), i=rng.choice(ix), k=rng.choice(ks), kw=int(rng.random() < 0.2), t=T()))
+
+	parts = dict(codec=codec, put=put, fail=fail, match=match, acc=acc, dec=dec)
+	if theme == 'mixed':
+		# two or three parts over one pool, their steps interleaved (order within a part kept)
+		chunks = []
+		for name in rng.sample(sorted(parts), rng.randint(2, 3)):
+			parts[name](rng.randint(2, 3))
+			chunks.append(steps[:])
+			del steps[:]
+		while any(chunks):
+			ch = rng.choice([x for x in chunks if x])
+			steps.append(ch.pop(0))
+	else:
+		parts[theme](rng.randint(2, 6))
+	c = dict(theme=theme, bufs=bufs, steps=steps)
+	for name, val in (('ints', ints), ('specs', specs), ('accs', accs)):
+		if val:
+			c[name] = val
+	return c
+
+
 KINDS = {'enc': k_enc, 'dec': k_dec, 'rc': k_rc, 'forms': k_forms, 'text': k_text, 'decforms': k_decforms,
-         'match': k_match, 'acc': k_acc, 'long': k_long}
+         'match': k_match, 'acc': k_acc, 'long': k_long, 'script': k_script}
 
 
 def generate(ctx):
@@ -830,3 +1569,13 @@ def generate(ctx):
 		alpha = rng.choice([NUCS.hex(), NUC.hex(), b'A'.hex(), b'T'.hex(), b'a'.hex(), b'CG'.hex()])
 		ctx.count('stream:enc-long')
 		yield 'long', dict(what='enc', n=n, alphabet=alpha, seed=rng.randrange(2 ** 32))
+	# ------------------------------------------------------------------------------------------------
+	# (state audit) call sequences over a small pool of shared caller objects, see "state and aliasing" in the docstring
+	import time
+	spent = 0.0
+	for j in range(ctx.pick(7000, 70000)):
+		t0 = time.time()
+		c = _gen_script(rng, _SCRIPT_THEMES[j % len(_SCRIPT_THEMES)])
+		spent += time.time() - t0
+		yield 'script', c
+	ctx.extra['script_generate_seconds'] = round(spent, 2)
